@@ -108,3 +108,249 @@ def rule_a1(repo, res):
                                 "OrderedMultiDict.__setitem__, whose effect is 'replace the first item named k and delete "
                                 "every later item named k': when the caller's module holds several items with that name "
                                 "the others are removed from it", where=f"pvl/encoder.py:{n.lineno}"))
+
+
+# ------------------------------------------------------------------ D1 dispatch
+SUBCLASS_OF = {"bool": {"int"}, "datetime": {"date"}, "datetime.datetime": {"datetime.date", "date"},
+               "EmptyValueAtLine": {"str"}, "frozenset": set(), "PVLGroup": {"abc.Mapping"}}
+
+
+def isinstance_chain(fn, var):
+    """Top-level if/elif chain of *fn* on isinstance(var, T) / `var is None`: list of (type names, branch body)."""
+    chain = []
+    node = None
+    for s in fn.body:
+        if isinstance(s, ast.If):
+            node = s
+            break
+    while node is not None:
+        t = node.test
+        names = None
+        if isinstance(t, ast.Call) and isinstance(t.func, ast.Name) and t.func.id == "isinstance" and len(t.args) == 2 \
+                and isinstance(t.args[0], ast.Name) and t.args[0].id == var:
+            ty = t.args[1]
+            names = [norm(x) for x in (ty.elts if isinstance(ty, ast.Tuple) else [ty])]
+        elif isinstance(t, ast.Compare) and isinstance(t.ops[0], ast.Is) and norm(t.left) == var and norm(t.comparators[0]) == "None":
+            names = ["None"]
+        chain.append((names, node.body, node))
+        if len(node.orelse) == 1 and isinstance(node.orelse[0], ast.If):
+            node = node.orelse[0]
+        else:
+            chain.append((["<else>"], node.orelse, node))
+            node = None
+    return chain
+
+
+def numeric_types(repo, cname):
+    """Names in self.numeric_types as assigned in the constructor chain."""
+    for c in repo.mro(cname):
+        if c.startswith("ext:"):
+            continue
+        init = repo.classes[c].methods.get("__init__")
+        if init is None:
+            continue
+        for n in ast.walk(init):
+            if isinstance(n, ast.Assign) and norm(n.targets[0]) == "self.numeric_types" and isinstance(n.value, ast.Tuple):
+                return [norm(x) for x in n.value.elts]
+    return None
+
+
+def rule_d1(repo, res):
+    """D1: in the isinstance chains of encode_simple_value / encode_datetype a subclass is tested before its
+    superclass when their targets differ (bool before the numeric types, datetime before date); every type the
+    loader can construct has a branch; numbers are rendered with str(value)."""
+    for enc in encoder_classes(repo):
+        c, fn = repo.resolve_method(enc, "encode_simple_value")
+        if fn is None:
+            raise AnalysisError(f"anchor vanished: {enc}.encode_simple_value")
+        var = fn.args.args[1].arg
+        chain = isinstance_chain(fn, var)
+        nt = numeric_types(repo, enc) or []
+        pos = {}
+        for i, (names, body, node) in enumerate(chain):
+            for nme in names or []:
+                expanded = nt if nme == "self.numeric_types" else [nme]
+                for x in expanded:
+                    x = x.replace("datetime.", "") if x.startswith("datetime.") else x
+                    pos.setdefault(x, i)
+        need = ["None", "set", "frozenset", "list", "datetime", "date", "time", "bool", "int", "float", "str"]
+        for t in need:
+            ok = t in pos
+            res.oblige("D1", f"{enc}.encode_simple_value ({c}) has a branch for {t}", ok=ok)
+            if not ok:
+                res.add(Finding("D1", f"{c}.encode_simple_value", f"branch for {t}",
+                                f"{c}.encode_simple_value has no branch for {t}, a type the loaders produce: dumping a "
+                                "loaded module raises TypeError", where=f"pvl/encoder.py:{fn.lineno}"))
+        for sub, sup in (("bool", "int"), ("bool", "float")):
+            if sub in pos and sup in pos:
+                ok = pos[sub] < pos[sup]
+                res.oblige("D1", f"{enc}.encode_simple_value ({c}): {sub} is tested before {sup}", ok=ok)
+                if not ok:
+                    res.add(Finding("D1", f"{c}.encode_simple_value", f"{sub} before {sup}",
+                                    f"{c}.encode_simple_value tests {sup} (via the numeric types) before {sub}: since "
+                                    f"bool is a subclass of int, True/False are written as 1/0... as numbers and reload "
+                                    "as integers", where=f"pvl/encoder.py:{fn.lineno}"))
+        # numbers are rendered with str(value)
+        for names, body, node in chain:
+            if names and "self.numeric_types" in names:
+                rets = [r for r in body if isinstance(r, ast.Return)]
+                ok = bool(rets) and all(norm(r.value) in (f"str({var})", f"repr({var})") for r in rets)
+                res.oblige("D1", f"{enc}.encode_simple_value ({c}): numbers are written with str(value)", ok=ok)
+                if not ok:
+                    res.add(Finding("D1", f"{c}.encode_simple_value", "numeric rendering",
+                                    f"{c}.encode_simple_value no longer writes numbers with str(value) "
+                                    f"(`{norm(rets[0], 50) if rets else 'no return'}`): digits of reals or big integers can be lost",
+                                    where=f"pvl/encoder.py:{node.lineno}"))
+        c2, fn2 = repo.resolve_method(enc, "encode_datetype")
+        if fn2 is None:
+            raise AnalysisError(f"anchor vanished: {enc}.encode_datetype")
+        var2 = fn2.args.args[1].arg
+        ch2 = isinstance_chain(fn2, var2)
+        order = []
+        targets = {}
+        for names, body, node in ch2:
+            for nme in names or []:
+                x = nme.replace("datetime.", "")
+                order.append(x)
+                calls = [norm(r.value.func) for r in body if isinstance(r, ast.Return) and isinstance(r.value, ast.Call)]
+                targets[x] = calls[0] if calls else None
+        ok = "datetime" in order and "date" in order and order.index("datetime") < order.index("date")
+        res.oblige("D1", f"{enc}.encode_datetype ({c2}): datetime is tested before date", ok=ok)
+        if not ok:
+            res.add(Finding("D1", f"{c2}.encode_datetype", "datetime before date",
+                            f"{c2}.encode_datetype tests datetime.date before datetime.datetime (a subclass): a date-time "
+                            "is written as a bare date and loses its time", where=f"pvl/encoder.py:{fn2.lineno}"))
+        want = {"datetime": "self.encode_datetime", "date": "self.encode_date", "time": "self.encode_time"}
+        for t, callee in want.items():
+            ok = targets.get(t) == callee
+            res.oblige("D1", f"{enc}.encode_datetype ({c2}): {t} -> {callee}", ok=ok)
+            if not ok:
+                res.add(Finding("D1", f"{c2}.encode_datetype", f"{t} target",
+                                f"{c2}.encode_datetype sends {t} values to {targets.get(t)} instead of {callee}",
+                                where=f"pvl/encoder.py:{fn2.lineno}"))
+        # encode_datetime = date 'T' time
+        c3, fn3 = repo.resolve_method(enc, "encode_datetime")
+        rets = [r for r in ast.walk(fn3) if isinstance(r, ast.Return)]
+        src = " ".join(norm(r.value) for r in rets if r.value is not None)
+        calls = {norm(n.func) for n in ast.walk(fn3) if isinstance(n, ast.Call)}
+        ok = {"self.encode_date", "self.encode_time"} <= calls and "'T'" in src
+        res.oblige("D1", f"{enc}.encode_datetime ({c3}) = encode_date + 'T' + encode_time", ok=ok)
+        if not ok:
+            res.add(Finding("D1", f"{c3}.encode_datetime", "date 'T' time",
+                            f"{c3}.encode_datetime is no longer encode_date(value) + 'T' + encode_time(value)",
+                            where=f"pvl/encoder.py:{fn3.lineno}"))
+    # encode_value: quantity first, falling back to the simple value on ValueError
+    for enc in encoder_classes(repo):
+        c, fn = repo.resolve_method(enc, "encode_value")
+        base_c, base_fn = repo.resolve_method("PVLEncoder", "encode_value")
+        t = [n for n in base_fn.body if isinstance(n, ast.Try)]
+        ok = len(t) == 1 and "self.encode_quantity" in norm(t[0].body[0]) and any(
+            h.type is not None and norm(h.type) == "ValueError" and "self.encode_simple_value" in norm(h.body[0]) for h in t[0].handlers)
+    res.oblige("D1", "PVLEncoder.encode_value: encode_quantity, falling back to encode_simple_value on ValueError", ok=ok)
+    if not ok:
+        res.add(Finding("D1", "PVLEncoder.encode_value", "quantity then simple value",
+                        "PVLEncoder.encode_value no longer tries encode_quantity and falls back to encode_simple_value",
+                        where=f"pvl/encoder.py:{base_fn.lineno}"))
+
+
+# ------------------------------------------------------------------ W1 wrapping
+def decoder_folds_whitespace(repo, dcls):
+    c, fn = repo.resolve_method(dcls, "decode_quoted_string")
+    if fn is None:
+        return False
+    return any(isinstance(n, ast.Call) and norm(n.func) in ("re.sub", "re.subn") for n in ast.walk(fn))
+
+
+def rule_w1(repo, res, which=("quoted", "symbol", "flags")):
+    """W1: text in which white space is significant must not reach textwrap.wrap (taint: what encode_value returns
+    may be or contain a quoted string; the only sanitiser is the startswith(quotes) branch, which removes
+    IS_QUOTED only)."""
+    from . import lang
+    # the wrap call itself
+    fmt_c, fmt = repo.resolve_method("PVLEncoder", "format")
+    wraps = [n for n in ast.walk(fmt) if isinstance(n, ast.Call) and norm(n.func) in ("textwrap.wrap", "textwrap.fill")]
+    if "flags" in which:
+        res.floor("textwrap.wrap calls in format()", len(wraps), 1)
+        for wcall in wraps:
+            kw = {k.arg: k.value for k in wcall.keywords}
+            for flag in ("break_long_words", "break_on_hyphens"):
+                v = kw.get(flag)
+                ok = isinstance(v, ast.Constant) and v.value is False
+                res.oblige("W1", f"PVLEncoder.format: textwrap.wrap(..., {flag}=False)", ok=ok)
+                if not ok:
+                    res.add(Finding("W1", "PVLEncoder.format", f"{flag}=False",
+                                    f"textwrap.wrap in format() is called without {flag}=False: a long token (string, "
+                                    "number, date) is split across lines and reloads as two tokens",
+                                    where=f"pvl/encoder.py:{wcall.lineno}"))
+            v = kw.get("replace_whitespace")
+            ok = isinstance(v, ast.Constant) and v.value is False
+            res.oblige("W1", "PVLEncoder.format: textwrap.wrap(..., replace_whitespace=False)", ok=ok)
+            if not ok:
+                res.add(Finding("W1", "PVLEncoder.format", "replace_whitespace=False",
+                                "textwrap.wrap in format() may replace white space characters inside the text it wraps",
+                                where=f"pvl/encoder.py:{wcall.lineno}"))
+    for enc in encoder_classes(repo):
+        gcls, dcls = lang.encoder_pairing(repo, enc)
+        c, fn = repo.resolve_method(enc, "encode_assignment")
+        # does the argument of a self.format() call include the encoded value?
+        tainted_calls = []
+        for call in [n for n in ast.walk(fn) if isinstance(n, ast.Call) and norm(n.func) == "self.format"]:
+            arg = call.args[0] if call.args else None
+            if not isinstance(arg, ast.Name):
+                continue
+            # statements before the call (in source order) that add the encoded value to that variable
+            adds = []
+            for n in ast.walk(fn):
+                if isinstance(n, ast.AugAssign) and isinstance(n.target, ast.Name) and n.target.id == arg.id and \
+                        n.lineno <= call.lineno and ("encode_value" in norm(n.value) or "enc_val" in norm(n.value)):
+                    # same branch?  the call must be reachable after the add: same statement list or later
+                    adds.append(n)
+            reach = []
+            for a in adds:
+                pa, pc = getattr(a, "_parent", None), getattr(call, "_parent", None)
+                # walk up from the call to find a list that also contains the add
+                anc = call
+                same = False
+                while anc is not None and anc is not fn:
+                    par = getattr(anc, "_parent", None)
+                    for field in ("body", "orelse"):
+                        lst = getattr(par, field, None)
+                        if isinstance(lst, list) and anc in lst and a in lst and lst.index(a) < lst.index(anc):
+                            same = True
+                    anc = par
+                if same:
+                    reach.append(a)
+            if reach:
+                # is the call inside the not-startswith(quotes) branch?
+                sanitised = False
+                anc = call
+                while anc is not None and anc is not fn:
+                    par = getattr(anc, "_parent", None)
+                    if isinstance(par, ast.If) and "startswith(self.grammar.quotes)" in norm(par.test) and anc in par.orelse:
+                        sanitised = True
+                    anc = par
+                tainted_calls.append((call, sanitised))
+        folds = decoder_folds_whitespace(repo, dcls)
+        for call, sanitised in tainted_calls:
+            kinds = {"CONTAINS_QUOTED"} | (set() if sanitised else {"IS_QUOTED"})
+            if "quoted" in which:
+                ok = folds
+                res.oblige("W1", f"{enc}.encode_assignment ({c}): quoted text ({'/'.join(sorted(kinds))}) reaching "
+                                 f"textwrap is harmless because {dcls}.decode_quoted_string folds white space", ok=ok)
+                if not ok:
+                    res.add(Finding("W1", f"{c}.encode_assignment", f"{enc}: quoted text reaches textwrap",
+                                    f"for {enc}, encode_assignment passes the encoded value to format()/textwrap.wrap "
+                                    f"({'the branch for values that start with a quote is exempt, but ' if sanitised else ''}"
+                                    "a set or sequence of quoted strings is not): a line break and indentation can be "
+                                    f"inserted inside a quoted string, and {dcls}.decode_quoted_string keeps white space "
+                                    "verbatim, so the string is altered on reload", where=f"pvl/encoder.py:{call.lineno}"))
+            if "symbol" in which and repo.resolve_method(enc, "is_symbol")[1] is not None:
+                ok = "IS_QUOTED" not in kinds
+                res.oblige("W1-SYMBOL", f"{enc}.encode_assignment ({c}): a single-quoted symbol string cannot reach textwrap", ok=ok)
+                if not ok:
+                    res.add(Finding("W1-SYMBOL", f"{c}.encode_assignment", f"{enc}: symbol string reaches textwrap",
+                                    f"for {enc}, a value that is itself a quoted symbol string goes through "
+                                    "format()/textwrap.wrap; is_symbol() admits spaces, so at sufficient nesting the "
+                                    "symbol is split over two lines, which ODL forbids for symbol strings",
+                                    where=f"pvl/encoder.py:{call.lineno}"))
+        res.floor(f"{enc}: format() calls that receive the encoded value", len(tainted_calls), 1)
